@@ -139,6 +139,7 @@ fn pass_2_internal(segment: &Segment, common_context: &CommonContext) -> Result<
                 }
             }
             Item::Set(name, expr) => {
+                let name = &name.to_lowercase();
                 let value = expr.run(common_context)?;
                 if common_context.exist(name) {
                     let mut sets = common_context.sets.borrow_mut();
